@@ -38,15 +38,15 @@ type Decision struct {
 type Hook func(op, name string, nth int) Decision
 
 type B struct {
-	mu     sync.Mutex
-	blobs  map[string][]byte
-	log    []Event
-	count  map[string]int
-	t0     time.Time
-	hook   atomic.Pointer[Hook]
+	mu       sync.Mutex
+	blobs    map[string][]byte
+	log      []Event
+	count    map[string]int
+	t0       time.Time
+	hook     atomic.Pointer[Hook]
 	CtxAware bool
 
-	inflightLoad int32
+	inflightLoad    int32
 	MaxInflightLoad int32
 
 	// OnMutation is called under the bucket lock after every successful
